@@ -202,7 +202,8 @@ RelinRes(st) ==
 RotRes(st) ==
     LET a == reg[st.a]
         lv == IF st.new THEN a.lvl ELSE Min2(a.lvl, reg[st.o].lvl)
-    IN [err |-> keys = "none" \/ a.deg # 1 \/ (~st.new /\ reg[st.o].deg # 1), pre |-> TRUE, degs |-> {1},
+    \* the rotation by 0 is the identity and needs no key; its result carries the input's message, scale and level rule all the same
+    IN [err |-> (keys = "none" /\ st.k # 0) \/ a.deg # 1 \/ (~st.new /\ reg[st.o].deg # 1), pre |-> TRUE, degs |-> {1},
         out |-> MkOut([i \in Slot |-> a.m[((i - 1 + st.k) % NS) + 1]], a.fb, a.sx, lv, 1, a.md)]
 
 ConjRes(st) ==
@@ -244,14 +245,17 @@ Callable(st) ==
 \* the real values of the conjugate-invariant ring have no imaginary part
 RealOK(r) == Real => \A i \in Slot : r.m[i][2] = 0
 
-\* ch.deg: degree reported by the implementation where two are admissible; ch.err: error reported
+\* ch.deg: degree reported by the implementation where two are admissible; ch.err: error reported; ch.lvl: level reported
 Call(st, ch) ==
     /\ Callable(st)
     /\ LET r == Res(st) IN
        /\ r.pre                         \* the call is inside the contract covered by this specification
        /\ ch.err = r.err
        /\ (~r.err => ch.deg \in r.degs)
-       /\ reg' = [reg EXCEPT ![st.o] = IF r.err THEN Dead ELSE [r.out EXCEPT !.deg = ch.deg]]
+       \* ch.lvl: the rotation by 0 is a plain copy, which may keep the level of its input where the general path takes the minimum
+       /\ reg' = [reg EXCEPT ![st.o] = IF r.err THEN Dead
+                                       ELSE [r.out EXCEPT !.deg = ch.deg,
+                                                          !.lvl = IF st.op = "Rotate" /\ st.k = 0 /\ ch.lvl = reg[st.a].lvl THEN ch.lvl ELSE @]]
     /\ UNCHANGED keys
 
 Load(o, v, fb, ls, lvl) ==
